@@ -179,7 +179,7 @@ func (w *World) loopHead(fr *Frame, st *State, h *ssa.BasicBlock, k int) {
 	if fr.top {
 		for _, inv := range ls.Invariants {
 			env := w.contractEnv(fr, st, fr.entry)
-			w.oblige("loop.init", fmt.Sprintf("loop%d.init.%s", k, inv.Label), st.cond, w.evalBool(env, inv.Expr), inv.Star, props)
+			w.oblige("loop.init", fmt.Sprintf("loop%d.init.%s", k, inv.Label), st.cond, w.skolemGoal(env, inv.Expr), inv.Star, props)
 		}
 	}
 	// havoc what the loop may write
@@ -247,6 +247,7 @@ func (w *World) loopHead(fr *Frame, st *State, h *ssa.BasicBlock, k int) {
 	for _, inv := range ls.Invariants {
 		env := w.contractEnv(fr, st, fr.entry)
 		w.sc.assume(implies(st.cond, w.evalBool(env, inv.Expr)))
+		w.noteQuantFacts(st.cond, env, inv.Expr)
 	}
 }
 
@@ -293,7 +294,7 @@ func (w *World) loopStep(fr *Frame, st *State, h *ssa.BasicBlock, k int) {
 	}
 	for _, inv := range ls.Invariants {
 		env := w.contractEnv(fr, st, fr.entry)
-		w.oblige("loop.step", fmt.Sprintf("loop%d.step%s.%s", k, ord, inv.Label), st.cond, w.evalBool(env, inv.Expr), inv.Star, fr.contract.Props)
+		w.oblige("loop.step", fmt.Sprintf("loop%d.step%s.%s", k, ord, inv.Label), st.cond, w.skolemGoal(env, inv.Expr), inv.Star, fr.contract.Props)
 	}
 }
 
